@@ -345,6 +345,13 @@ def _as_ref(it, args, dty, func):
     return some(r.child(0)) if o.idx == 1 else none()
 
 
+@model("std::result::Result::as_ref", "std::result::Result::as_mut")
+def _result_as_ref(it, args, dty, func):
+    r = args[0]
+    o = r.load()
+    return Enum("std::result::Result", o.idx, o.vname, [r.child(0)])
+
+
 @model("std::option::Option::as_deref", "std::option::Option::as_deref_mut")
 def _as_deref(it, args, dty, func):
     r = args[0]
@@ -2389,6 +2396,11 @@ def _notified_into(it, args, dty, func):
 
 # tokio's async mutex, sequential semantics: lock() is Ready when the mutex is free at the moment it is polled;
 # the guard's drop (MODEL_DROPS below, consulted by the interpreter's drop handling) releases it
+@model("tokio::task::yield_now", "tokio::task::yield_now::yield_now")
+def _yield_now(it, args, dty, func):
+    return Agg("{yield_now}", [False])
+
+
 @model("tokio::sync::Mutex::new")
 def _amutex_new(it, args, dty, func):
     return Agg("{amutex}", [False, args[0]])
@@ -2749,6 +2761,14 @@ def _async_poll(it, args, dty, func):
     path = strip_generics(m.group(1))
     if path == "tokio::sync::Mutex::lock":
         return _amutex_poll(it, _deref(args[0]))
+    if path.endswith("yield_now"):
+        # yields exactly once: Pending at the first poll, Ready at the second
+        y = _deref(args[0])
+        if isinstance(y, Agg) and y.ty == "{yield_now}":
+            if y.f[0]:
+                return Enum("std::task::Poll", 0, "Ready", [UNIT])
+            y.f[0] = True
+            return Enum("std::task::Poll", 1, "Pending", [])
     fn = it.resolve_fn(path, path)
     if fn is None:
         raise Unsupported("async fn body not found: " + path)
